@@ -3,6 +3,7 @@ CONSTANTS MaxLen = 2
  Files = {"f1"}
  AllowAbsent = FALSE
  MaxRunsGrow = 0
+ Part = 9
  Emit = FALSE
 SPECIFICATION SpecLemma
 INVARIANTS LemmaCommutative LemmaIdempotent LemmaAssociative LemmaIsBest LemmaAbsorb
